@@ -36,6 +36,10 @@ def units(tier):
         u.append(("fourier", gid, sid, True, False, lv))
     u.append(("fourier", "tric2", "311", True, True, "x1"))
     u.append(("fourier", "tric2", "311", False, False, "x1"))
+    # sparse storage on supercells whose Niggli reduction is a non-symmetric change of basis
+    u.append(("fourier", "tric2", "nd4", False, False, "xy1"))
+    u.append(("fourier", "tric2", "nd4", False, True, "xy1"))
+    u.append(("fourier", "cscl", "311", False, False, "x1"))
     if tier == "thorough":
         for gid, sid in [("tric2", "311"), ("tric2", "221"), ("hex2", "211"), ("fccF", "111"), ("mono2", "nd1"),
                          ("inter4", "111"), ("fccF", "211"), ("nacl8", "111")]:
